@@ -851,3 +851,31 @@ package kcp
 //@ func newBlockCrypt
 //@   requires block != nil && (blocksize(block) == 8 || blocksize(block) == 16)
 //@   ensures @C08 [establishes-bcinv] typeis(result, ptr_blockCrypt) && bcinv(unboxptr(result, blockCrypt))
+
+// ===================================================================================
+// C14 — lock-guard discipline. Every field of the shared structs is classified; the engine
+// asserts the class at every access in every function that can run concurrently (guard mode).
+//   immutable: see the lists above (written only by constructors)
+//   sync / sync/atomic typed fields and channels' operations: internally synchronised
+// SetDUP is deprecated (C14 covers the supported methods): dup is treated as configuration.
+// ===================================================================================
+//
+//@ shared UDPSession Listener blockCrypt rngAES rngChacha8 TimedSched
+//@ owned KCP RingBuffer segmentHeap fecDecoder fecEncoder autoTune shardHeap
+//@ guard UDPSession.mu: *kcp fecDecoder *fecDecoder recvbuf recvbuf[] bufptr bufptr[] ackNoDelay writeDelay
+//@ confined UDPSession.postProcess: UDPSession.*fecEncoder
+//@ immutable UDPSession.dup UDPSession.platform UDPSession.ownConn
+//@ constructor UDPSession.SetDUP UDPSession.initPlatform
+//@ guard Listener.sessionLock: sessions[]
+//@ guard blockCrypt.encMu: encbuf[]
+//@ guard blockCrypt.decMu: decbuf[]
+//@ guard rngAES.mutex: block seed count
+//@ guard rngChacha8.mutex: rand count *rand
+//@ guard TimedSched.prependLock: prependTasks prependTasks[]
+//@ immutable TimedSched.chPrependNotify TimedSched.chTask TimedSched.die
+//@ constructor NewTimedSched NewEntropyAES NewEntropyChacha8 SetEntropy newFECDecoder
+// helpers that run inside their caller's critical section
+//@ func rngAES.updateSeed
+//@   requires @C14 held(r.mutex)
+//@ func rngChacha8.updateSeed
+//@   requires @C14 held(r.mutex)
